@@ -24,7 +24,11 @@ import re
 
 from . import common
 
-MAX_CELLS = 9
+MAX_CELLS = 9           # quick tier; thorough: 10 (adds the 2x5 / 5x2 tables)
+
+
+def max_cells(tier):
+    return MAX_CELLS if tier == 'quick' else 10
 
 
 def _ext(c):
@@ -142,8 +146,8 @@ def _pickled(l):
             for x in l2]
 
 
-def applicable(case):
-    return (case.variant == 'fresh' and case.labeling == 'asc' and case.n * case.m <= MAX_CELLS
+def applicable(case, tier='quick'):
+    return (case.variant == 'fresh' and case.labeling == 'asc' and case.n * case.m <= max_cells(tier)
             and case.tag and case.tag[0] == 'S' and len(case.ref.concepts) >= 4
             and case.ref.nontrivial())
 
@@ -161,7 +165,7 @@ def _first_ok(key, tier):
 def check(case, prop, ctr, families=None, tier='quick'):
     """Explore the histories whose LAST call belongs to ``families`` (default: the family
     named like the property).  Returns violations of ``prop``."""
-    if not applicable(case):
+    if not applicable(case, tier):
         return []
     A = alphabet(case)
     fams = families or (prop,)
